@@ -3,6 +3,8 @@
  * Case lines (same file is read by ml/c15_driver.ml; lines of family x / y belong to c15_cxx.cpp):
  *   <id> c <op> <args> ...     object history; slots 0..5 metatype pointers, 6..8 arrays, 9..11 deferred replies
  *                              kinds: buf hbuf hcnt huni gen mbuf cfg top reply raw stream iterf itern
+ *        rawdata (plot data object): modify m <dim> <form> | advance m | rget m a | setin m a | rread m;
+ *        its stage buffer is object kind "stage"
  *   <id> r <cop> <args> ...    mpt_refcount_raise / mpt_refcount_lower on a bare counter (set <hex> | raise | lower)
  *
  * Token per operation: <out>|<objects>|<slots>|<events>, last token L<0|1> (LeakSanitizer), see ml/c15_driver.ml.
@@ -13,6 +15,7 @@
  * The library structures are reached by #include of the .c files. */
 #include "common.h"
 #include <errno.h>
+#include <limits.h>
 #include <stddef.h>
 #include <sys/uio.h>
 #include <sys/socket.h>
@@ -29,8 +32,8 @@
 #include "values/iterator_file.c"
 #include "config.h"
 
-enum { KBUF, KHBUF, KHCNT, KHUNI, KGEN, KMBUF, KCFG, KTOP, KREPLY, KRAW, KSTREAM, KCXX, KITERF, KITERN, KNONE };
-static const char *kname[] = { "buf", "hbuf", "hcnt", "huni", "gen", "mbuf", "cfg", "top", "reply", "raw", "stream", "cxx", "iterf", "itern" };
+enum { KBUF, KHBUF, KHCNT, KHUNI, KGEN, KMBUF, KCFG, KTOP, KREPLY, KRAW, KSTREAM, KCXX, KITERF, KITERN, KSTAGE, KNONE };
+static const char *kname[] = { "buf", "hbuf", "hcnt", "huni", "gen", "mbuf", "cfg", "top", "reply", "raw", "stream", "cxx", "iterf", "itern", "stage" };
 enum { CCOUNTED, CUNIQUE, CSTATIC };
 static int cls_of(int k)
 {
@@ -40,7 +43,7 @@ static int cls_of(int k)
 	default: return CCOUNTED;
 	}
 }
-static int is_buf(int k) { return k == KBUF || k == KHBUF; }
+static int is_buf(int k) { return k == KBUF || k == KHBUF || k == KSTAGE; }
 
 /* ---- object table (pointers stored inverted: LeakSanitizer must not see them as references) ---- */
 #define MAXOBJ 256
@@ -199,7 +202,7 @@ static uintptr_t *cntp(int o)
 {
 	void *p = optr(o);
 	switch (objs[o].kind) {
-	case KBUF: return &MPT_baseaddr(bufferData, p, buf)->_ref._val;
+	case KBUF: case KSTAGE: return &MPT_baseaddr(bufferData, p, buf)->_ref._val;
 	case KHBUF: return &MPT_baseaddr(hbuf, p, buf)->ref._val;
 	case KHCNT: return &((struct hmeta *) p)->ref._val;
 	case KREPLY: return &MPT_baseaddr(reply_context_defer, p, _mt)->ref._val;
@@ -238,6 +241,104 @@ static void unref_obj(int o)
 	}
 }
 
+/* ---- rawdata: calls that take no reference, compared with the structure read back here ---- */
+static const char *raw_read(MPT_STRUCT(RawData) *rd)
+{
+	const MPT_INTERFACE_VPTR(rawdata) *rv = rd->_rd._vptr;
+	const MPT_STRUCT(named_traits) *nt = mpt_named_traits("mpt.rawdata", -1);
+	MPT_STRUCT(buffer) *s = rd->st._buf;
+	MPT_STRUCT(rawdata_stage) *st = s ? (void *) (s + 1) : 0;
+	MPT_INTERFACE(metatype) *x;
+	const void *p = 0;
+	const char *fmt = 0;
+	int n = s ? (int) (s->_used / sizeof(*st)) : 0, r, d;
+	/* the first conversion of a process registers the type */
+	if (rd->_mt._vptr->convertable.convert((void *) &rd->_mt, 0, &fmt) < 0 || !fmt) return "?conv0";
+	if (!nt) nt = mpt_named_traits("mpt.rawdata", -1);
+	if (rv->stage_count(&rd->_rd) != n) return "?stages";
+	r = rv->dimension_count(&rd->_rd, -1);
+	if (!s) { if (r >= 0) return "?dim0"; }
+	else if (rd->act >= n) { if (r >= 0) return "?dim1"; }
+	else {
+		MPT_STRUCT(buffer) *db = st[rd->act]._d._buf;
+		int nd = db ? (int) (db->_used / sizeof(MPT_STRUCT(value_store))) : 0;
+		if (r != nd) return "?dim2";
+		for (d = 0; d < nd; d++) {
+			const MPT_STRUCT(value_store) *vs = rv->values(&rd->_rd, (unsigned) d, -1);
+			db = st[rd->act]._d._buf;
+			if (vs != ((MPT_STRUCT(value_store) *) (db + 1)) + d) return "?values";
+		}
+	}
+	if (rv->dimension_count(&rd->_rd, n) >= 0) return "?dim3";
+	if (rv->values(&rd->_rd, 0, n)) return "?values1";
+	/* conversions */
+	if (rd->_mt._vptr->convertable.convert((void *) &rd->_mt, 0, &fmt) < 0 || !fmt) return "?conv0";
+	if (rd->_mt._vptr->convertable.convert((void *) &rd->_mt, MPT_ENUM(TypeMetaPtr), &p) < 0 || p != &rd->_mt) return "?conv1";
+	/* mpt_rawdata_type_traits() registers "mpt.rawdata" on EVERY call (its cache variable is not static): only the
+	 * first call of a process gets the type, rd_conv then no longer knows its own id; accepted either way here
+	 * (no reference is involved), see docs/notes_C15.md */
+	if (nt && rd->_mt._vptr->convertable.convert((void *) &rd->_mt, nt->type, &p) >= 0 && p != &rd->_rd) return "?conv2";
+	if (rd->_mt._vptr->convertable.convert((void *) &rd->_mt, 'd', &p) >= 0) return "?conv3";
+	if (rd->_mt._vptr->clone(&rd->_mt)) return "?clone";
+	/* creation limits */
+	if (mpt_rawdata_create(LONG_MAX)) return "?max";
+	if (!(x = mpt_rawdata_create(-3))) return "?neg";
+	if (MPT_baseaddr(RawData, x, _mt)->max != 0) return "?neg1";
+	x->_vptr->unref(x);
+	/* a hard cycle limit: cycles at or beyond it are refused */
+	if (!(x = mpt_rawdata_create(2))) return "?lim";
+	else {
+		MPT_STRUCT(RawData) *lim = MPT_baseaddr(RawData, x, _mt);
+		double v = 0.5;
+		MPT_STRUCT(value) val = MPT_VALUE_INIT('d', &v);
+		MPT_STRUCT(valdest) vd = MPT_VALDEST_INIT;
+		int bad, good;
+		vd.cycle = 5;
+		bad = lim->_rd._vptr->modify(&lim->_rd, 0, &val, &vd);
+		good = lim->_rd._vptr->modify(&lim->_rd, 0, &val, 0);
+		x->_vptr->unref(x);
+		if (bad >= 0 || good < 0) return "?lim1";
+	}
+	return "D";
+}
+/* ---- the buffers INSIDE stage buffers (per stage the value store array, per value store the data) are not
+ *      objects of the model: here the counter field of every value store array is compared with the number of
+ *      stages (of all existing stage buffers) that refer to it, and every data buffer must exist ---- */
+static uintptr_t bufref(const MPT_STRUCT(buffer) *b) { return MPT_baseaddr(bufferData, b, buf)->_ref._val; }
+static int nested_ok(void)
+{
+	int i, j;
+	for (i = 0; i < nobj; i++) {
+		MPT_STRUCT(buffer) *s;
+		MPT_STRUCT(rawdata_stage) *st;
+		size_t a, na;
+		if (objs[i].kind != KSTAGE || !alive(i)) continue;
+		s = optr(i); st = (void *) (s + 1); na = s->_used / sizeof(*st);
+		for (a = 0; a < na; a++) {
+			MPT_STRUCT(buffer) *d = st[a]._d._buf;
+			MPT_STRUCT(value_store) *vs;
+			uintptr_t refs = 0;
+			size_t b, nb;
+			if (!d) continue;
+			if (__asan_address_is_poisoned(d)) return 0;
+			for (j = 0; j < nobj; j++) {
+				MPT_STRUCT(buffer) *s2;
+				MPT_STRUCT(rawdata_stage) *st2;
+				size_t c, nc;
+				if (objs[j].kind != KSTAGE || !alive(j)) continue;
+				s2 = optr(j); st2 = (void *) (s2 + 1); nc = s2->_used / sizeof(*st2);
+				for (c = 0; c < nc; c++) if (st2[c]._d._buf == d) refs++;
+			}
+			if (bufref(d) != refs) return 0;
+			vs = (void *) (d + 1); nb = d->_used / sizeof(*vs);
+			for (b = 0; b < nb; b++) {
+				MPT_STRUCT(buffer) *v = vs[b]._d._buf;
+				if (v && (__asan_address_is_poisoned(v) || !bufref(v))) return 0;
+			}
+		}
+	}
+	return 1;
+}
 static void dump(void)
 {
 	int i, any = 0;
@@ -249,6 +350,7 @@ static void dump(void)
 		else if ((c = cntp(i))) vh_add("%llx", (unsigned long long) *c);
 		else vh_add(cls_of(objs[i].kind) == CSTATIC ? "s" : "u");
 	}
+	if (!nested_ok()) vh_add("!nested");
 	if (!nobj) vh_add("-");
 	vh_add("|");
 	for (i = 0; i < 12; i++) {
@@ -332,7 +434,7 @@ static void run_objects(int ntok, char **tok)
 		if (!strcmp(op, "new")) {
 			int k = kind_of(tok[t]), d = ARGI(1);
 			t += 2;
-			if (k == KMBUF || k == KCXX || k == KNONE || slot_obj(d) >= 0
+			if (k == KMBUF || k == KCXX || k == KSTAGE || k == KNONE || slot_obj(d) >= 0
 			    || !((bank(d) == 0 && !is_buf(k)) || (bank(d) == 1 && is_buf(k)))) { vh_tok("X"); }
 			else if (bank(d) == 1) {
 				MPT_STRUCT(buffer) *b;
@@ -493,12 +595,64 @@ static void run_objects(int ntok, char **tok)
 		else if (!strcmp(op, "setin")) {
 			int m = ARGI(0), a = ARGI(1);
 			t += 2;
-			if (bank(m) != 0 || bank(a) != 1 || slot_kind(m) != KRAW) vh_tok("X");
+			/* the stage member holds stage buffers only (obtained by rget from a rawdata object) */
+			if (bank(m) != 0 || bank(a) != 1 || slot_kind(m) != KRAW || (slot_obj(a) >= 0 && slot_kind(a) != KSTAGE)) vh_tok("X");
 			else {
 				MPT_STRUCT(RawData) *rd = MPT_baseaddr(RawData, mslot[m], _mt);
 				int r = mpt_array_clone(&rd->st, &aslot[a - 6]);
 				if (r < 0) vh_tok("E"); else vh_tok("R%x", r);
 			}
+		}
+		else if (!strcmp(op, "modify")) {
+			int m = ARGI(0), dim = ARGI(1), form = ARGI(2);
+			t += 3;
+			if (bank(m) != 0 || slot_kind(m) != KRAW) vh_tok("X");
+			else {
+				MPT_STRUCT(RawData) *rd = MPT_baseaddr(RawData, mslot[m], _mt);
+				double v[2] = { 1.5, 2.5 };
+				struct iovec vec = { v, sizeof(v) };
+				MPT_STRUCT(valdest) vd = MPT_VALDEST_INIT;
+				MPT_STRUCT(value) val = MPT_VALUE_INIT('d', v);
+				const MPT_STRUCT(valdest) *dest = 0;
+				int r;
+				switch (form) {
+				case 1: val._type = MPT_type_toVector('d'); val._addr = &vec; break;   /* vector of two */
+				case 2: vd.offset = 1; dest = &vd; break;                               /* behind the first value */
+				case 3: val._type = MPT_ENUM(TypeMetaRef) + 0x1f; break;                /* a type without traits */
+				case 4: vd.cycle = 1000; dest = &vd; break;                             /* a cycle that does not exist */
+				default: break;
+				}
+				r = rd->_rd._vptr->modify(&rd->_rd, (unsigned) dim, &val, dest);
+				if (rd->st._buf) reg_obj(KSTAGE, rd->st._buf);
+				vh_tok(r < 0 ? "E" : "D");
+			}
+		}
+		else if (!strcmp(op, "advance")) {
+			int m = ARGI(0);
+			t += 1;
+			if (bank(m) != 0 || slot_kind(m) != KRAW) vh_tok("X");
+			else {
+				MPT_STRUCT(RawData) *rd = MPT_baseaddr(RawData, mslot[m], _mt);
+				rd->_rd._vptr->advance(&rd->_rd);
+				if (rd->st._buf) reg_obj(KSTAGE, rd->st._buf);
+				vh_tok("D");
+			}
+		}
+		else if (!strcmp(op, "rget")) {
+			int m = ARGI(0), a = ARGI(1);
+			t += 2;
+			if (bank(m) != 0 || bank(a) != 1 || slot_kind(m) != KRAW) vh_tok("X");
+			else {
+				MPT_STRUCT(RawData) *rd = MPT_baseaddr(RawData, mslot[m], _mt);
+				int r = mpt_array_clone(&aslot[a - 6], &rd->st);
+				if (r < 0) vh_tok("E"); else vh_tok("R%x", r);
+			}
+		}
+		else if (!strcmp(op, "rread")) {
+			int m = ARGI(0);
+			t += 1;
+			if (bank(m) != 0 || slot_kind(m) != KRAW) vh_tok("X");
+			else vh_tok(raw_read(MPT_baseaddr(RawData, mslot[m], _mt)));
 		}
 		else if (!strcmp(op, "defer")) {
 			int s = ARGI(0), d = ARGI(1);
